@@ -468,11 +468,11 @@ public:
         assert(ss_front_ == 0);
         assert(ss_stack_.empty());
 
-        std::uint16_t* bktcache =
-            reinterpret_cast<std::uint16_t*>(bktcache_.data());
-
-        // sort first level
-        ss_stack_.emplace_back(ctx_, strptr, depth, bktcache);
+        // sort first level. Note: sort_mkqs_cache() may reallocate bktcache_,
+        // hence the pointer must be fetched again for every step.
+        ss_stack_.emplace_back(
+            ctx_, strptr, depth,
+            reinterpret_cast<std::uint16_t*>(bktcache_.data()));
 
         // step 5: "recursion"
 
@@ -525,7 +525,7 @@ public:
 
                         ss_stack_.emplace_back(
                             ctx_, sp, s.depth_ + (s.splitter_lcp[i / 2] & 0x7F),
-                            bktcache);
+                            reinterpret_cast<std::uint16_t*>(bktcache_.data()));
                     }
                 }
                 // i is odd -> bkt[i] is equal bucket
@@ -567,7 +567,8 @@ public:
                             << " size " << bktsize << " lcp keydepth!";
 
                         ss_stack_.emplace_back(
-                            ctx_, sp, s.depth_ + sizeof(key_type), bktcache);
+                            ctx_, sp, s.depth_ + sizeof(key_type),
+                            reinterpret_cast<std::uint16_t*>(bktcache_.data()));
                     }
                 }
             }
